@@ -689,7 +689,7 @@ func runMux(cr *childResult, rng *hk.Rand, c *req.Client, base string, o *origin
 		go func(g int) {
 			defer wg.Done()
 			for i := 0; i < n/callers; i++ {
-				kind := hk.Pick(lr, []string{"multi", "multi", "big", "get", "post", "head", "earlyreply"})
+				kind := hk.Pick(lr, []string{"multi", "multi", "big", "get", "post", "head", "earlyreply", "abort"})
 				tag := fmt.Sprintf("%s-g%d-i%d", roundID, g, i)
 				withDump := lr.Chance(25)
 				atomic.AddInt64(&started, 1)
@@ -705,13 +705,18 @@ func runMux(cr *childResult, rng *hk.Rand, c *req.Client, base string, o *origin
 					cr.fail(hk.Failure{Sig: "crosstalk:" + label + ":" + kind, What: "caller did not receive the response to its own request on a multiplexed connection",
 						Input: map[string]interface{}{"round": roundID, "tag": tag, "kind": kind}, Got: problem, Want: tag})
 				}
-				if errored {
+				if errored && kind == "abort" {
+					cr.count(label + ".requests_aborted_by_origin") // the origin reset this stream only
+				} else if errored {
 					cr.count(label + ".requests_errored")
 					// the origins of these phases answer every request and nothing closes a
 					// connection in use: a caller that gets an error instead of its response
 					// did not "receive the response to its own request"
 					cr.fail(hk.Failure{Sig: "error:" + label + ":" + kind, What: "a request on a multiplexed connection failed although the origin answers every request (stream refused / connection torn down by a protocol error?)",
 						Input: map[string]interface{}{"round": roundID, "tag": tag, "kind": kind}, Got: errText})
+				} else if kind == "abort" {
+					cr.fail(hk.Failure{Sig: "crosstalk:" + label + ":abort-answered", What: "a request whose stream the origin reset got a response (some other stream's?)",
+						Input: map[string]interface{}{"round": roundID, "tag": tag}})
 				} else {
 					cr.count(label + ".requests_ok")
 					cr.count(label + ".proto=" + proto)
